@@ -27,7 +27,8 @@ Section NM.
     end.
 End NM.
 
-Inductive cmd := Push (k : nat) | Pop (k : nat) | Len (k : nat) | Del (k : nat) | Move (a b : nat).
+Inductive cmd := Push (k : nat) | Pop (k : nat) | Len (k : nat) | Del (k : nat) | Move (a b : nat)
+| PushX (k : nat).   (* RPUSHX: a writer that does not create the key *)
 
 (* a metadata record: the value, its RWMutex, and two ghost counters (acknowledged elements in / out) *)
 Record rcd := { r_val : Z; r_w : option nat; r_rd : list nat; r_in : Z; r_out : Z }.
@@ -49,7 +50,7 @@ Record thread := { t_cmd : cmd; t_pc : pc; t_held : list (nat * bool) (* record,
 Record cstate := { ix : list (nat * nat); recs : list (nat * rcd); nextr : nat; ths : list (nat * thread) }.
 
 Definition key_of (c : cmd) (second : bool) : nat :=
-  match c with Push k | Pop k | Len k | Del k => k | Move a b => if second then b else a end.
+  match c with Push k | Pop k | Len k | Del k | PushX k => k | Move a b => if second then b else a end.
 Definition creates (c : cmd) (second : bool) : bool :=
   match c with Push _ => true | Move _ _ => second | _ => false end.
 Definition is_reader (c : cmd) : bool := match c with Len _ => true | _ => false end.
@@ -127,7 +128,7 @@ Definition mstep (t : nat) (s : cstate) : option cstate :=
       | PPub r sec => Some (set_th t (with_pc x (PLoaded r (r_val (get_rec r s)) sec)) s)
       | PLoaded r tmp sec =>
           match c with
-          | Push _ => Some (set_th t (with_pc x (PStored r sec)) (set_rec r (with_val (get_rec r s) (tmp + 1) 1 0) s))
+          | Push _ | PushX _ => Some (set_th t (with_pc x (PStored r sec)) (set_rec r (with_val (get_rec r s) (tmp + 1) 1 0) s))
           | Pop _ =>
               if tmp <=? 0 then Some (commit t x 0 s)
               else Some (set_th t (with_pc x (PStored r sec)) (set_rec r (with_val (get_rec r s) (tmp - 1) 0 1) s))
@@ -139,7 +140,7 @@ Definition mstep (t : nat) (s : cstate) : option cstate :=
           end
       | PStored r sec =>
           match c with
-          | Push _ => Some (commit t x (r_val (get_rec r s)) s)
+          | Push _ | PushX _ => Some (commit t x (r_val (get_rec r s)) s)
           | Pop _ => if r_val (get_rec r s) =? 0 then Some (set_th t (with_pc x (PUnlink r)) s) else Some (commit t x 1 s)
           | Move _ _ =>
               if sec then Some (commit t x 1 s)
